@@ -414,13 +414,17 @@ def mujoco_worker(ctx: Ctx, payload):
     from lerax.env import mujoco as mj
     from lerax.wrapper import TimeLimit
 
-    env = getattr(mj, name)()
+    if name.startswith("G1"):
+        from lerax.env.unitree import g1
+
+        # the only configuration in which the components do not use their key
+        env = getattr(g1, name)(push_enable=False, noise_level=0.0)
+    else:
+        env = getattr(mj, name)()
     base = env
     if tl:
         env = TimeLimit(env, tl)
     low, high = np.asarray(base.action_space.low), np.asarray(base.action_space.high)
-    init_qpos = np.asarray(base.init_qpos, np.float64)
-    noise = float(np.asarray(getattr(base, "reset_noise_scale", 0.1)))
     tags = {"env": name}
 
     def fresh(state):
@@ -432,6 +436,8 @@ def mujoco_worker(ctx: Ctx, payload):
             return f"episode clock not restarted: t={float(b.t)}"
         if float(b.sim_state.time) != 0.0:
             return f"simulation clock not restarted: {float(b.sim_state.time)}"
+        if hasattr(b, "step_count") and float(b.step_count) != 0.0:
+            return f"step counter not restarted: {float(b.step_count)}"
         return None
 
     rng = np.random.default_rng(ctx.seed)  # enumeration of histories inside a worker; recorded in the case
@@ -484,7 +490,12 @@ def oracle_mujoco(ctx: Ctx, case):
     from lerax.env import mujoco as mj
     from lerax.wrapper import TimeLimit
 
-    env = getattr(mj, case["env"])()
+    if case["env"].startswith("G1"):
+        from lerax.env.unitree import g1
+
+        env = getattr(g1, case["env"])(push_enable=False, noise_level=0.0)
+    else:
+        env = getattr(mj, case["env"])()
     if case["time_limit"]:
         env = TimeLimit(env, case["time_limit"])
     tags = {"env": case["env"]}
@@ -528,6 +539,8 @@ def run(ctx: Ctx):
             ctx.run_given("classic", classic_cases(name, with_tl), oracle_classic, ctx.n(25, 400))
     envs = ["InvertedPendulum", "Hopper"] if ctx.quick else ["InvertedPendulum", "Hopper", "Ant", "HalfCheetah", "Humanoid", "HumanoidStandup", "InvertedDoublePendulum", "Pusher", "Reacher", "Swimmer", "Walker2d"]
     payloads = [(e, ctx.n(6, 40), ctx.n(12, 40), tl) for e in envs for tl in ((0, 5) if ctx.quick else (0, 3, 7))]
+    if not ctx.quick:
+        payloads += [(e, 6, 12, tl) for e in ("G1Standing", "G1Locomotion", "G1Standup") for tl in (0, 4)]
     run_pool(ctx, "checks.c01_step_reset", "mujoco_worker", payloads)
     ctx.require_fraction("stack", "trunc", 0.06)
     ctx.require_fraction("stack", "term", 0.06)
